@@ -123,6 +123,54 @@ impl std::fmt::Display for MyError {
     }
 }
 
+/// A second error type whose response name collides with dropshot's own `Error`
+/// (and a third colliding with it): the shared `components.responses` names
+/// (`Error`, `Error2`, …) must not depend on the registration order.
+pub mod storage {
+    use super::*;
+    #[derive(Debug, Serialize, JsonSchema)]
+    pub struct Error {
+        pub disk: String,
+    }
+    impl dropshot::HttpResponseError for Error {
+        fn status_code(&self) -> dropshot::ErrorStatusCode {
+            dropshot::ErrorStatusCode::CONFLICT
+        }
+    }
+    impl From<HttpError> for Error {
+        fn from(e: HttpError) -> Self {
+            Error { disk: e.external_message }
+        }
+    }
+    impl std::fmt::Display for Error {
+        fn fmt(&self, f: &mut std::fmt::Formatter<'_>) -> std::fmt::Result {
+            write!(f, "storage error")
+        }
+    }
+}
+pub mod net {
+    use super::*;
+    #[derive(Debug, Serialize, JsonSchema)]
+    pub struct Error {
+        pub port: u16,
+    }
+    impl dropshot::HttpResponseError for Error {
+        fn status_code(&self) -> dropshot::ErrorStatusCode {
+            dropshot::ErrorStatusCode::BAD_GATEWAY
+        }
+    }
+    impl From<HttpError> for Error {
+        fn from(e: HttpError) -> Self {
+            Error { port: e.status_code.as_u16() }
+        }
+    }
+    impl std::fmt::Display for Error {
+        fn fmt(&self, f: &mut std::fmt::Formatter<'_>) -> std::fmt::Result {
+            write!(f, "net error")
+        }
+    }
+}
+
 macro_rules! unimpl {
     () => {
         Err(HttpError::for_internal_error("not served".to_string()).into())
@@ -178,6 +226,15 @@ async fn e_hidden(_: RequestContext<()>) -> Result<HttpResponseOk<DocOrder>, Htt
     unimpl!()
 }
 
+#[endpoint { method = GET, path = "/a/disks" }]
+async fn e_serr(_: RequestContext<()>) -> Result<HttpResponseOk<DocOrder>, storage::Error> {
+    Err(storage::Error { disk: "d".into() })
+}
+#[endpoint { method = GET, path = "/zz/ports", versions = .."3.0.0" }]
+async fn e_nerr(_: RequestContext<()>) -> Result<HttpResponseOk<DocOrder>, net::Error> {
+    Err(net::Error { port: 1 })
+}
+
 fn build(order: &[usize]) -> ApiDescription<()> {
     let mut api = ApiDescription::new();
     for i in order {
@@ -192,6 +249,8 @@ fn build(order: &[usize]) -> ApiDescription<()> {
             7 => api.register(e_dup).unwrap(),
             8 => api.register(e_err).unwrap(),
             9 => api.register(e_err2).unwrap(),
+            11 => api.register(e_serr).unwrap(),
+            12 => api.register(e_nerr).unwrap(),
             _ => api.register(e_hidden).unwrap(),
         }
     }
@@ -206,7 +265,7 @@ fn main() {
     let n_orders = if is_thorough() { 200 } else { 25 };
     for o in 0..n_orders {
         // subsets and orders of the family
-        let mut order: Vec<usize> = (0..11).filter(|_| o == 0 || rng.chance(3, 4)).collect();
+        let mut order: Vec<usize> = (0..13).filter(|_| o == 0 || rng.chance(3, 4)).collect();
         for i in (1..order.len()).rev() {
             let j = rng.below(i as u64 + 1) as usize;
             order.swap(i, j);
